@@ -77,19 +77,20 @@ fn extract_bracket_expr(pattern: &str) -> Option<(String, &str)> {
                 //
                 //     6. ...  A character class expression is expressed as a character class name
                 //        enclosed within bracket- <colon> ( "[:" and ":]" ) delimiters.
-                next = chars.next();
-                if let Some(delim) = next {
+                // Only "[.", "[=" and "[:" are special; any other '[' inside a
+                // bracket expression is an ordinary character (and a ']' after
+                // it still closes the expression).
+                let rest = chars.as_str();
+                if let Some(delim @ ('.' | '=' | ':')) = rest.chars().next() {
                     expr.push(delim);
-
-                    if matches!(delim, '.' | '=' | ':') {
-                        let rest = chars.as_str();
-                        let end = rest.find([delim, ']'])? + 2;
-                        // `end` may lie past the end of the pattern or inside a
-                        // multi-byte character: then there is no closing
-                        // delimiter and '[' is an ordinary character.
-                        expr.push_str(rest.get(..end)?);
-                        chars = rest[end..].chars();
-                    }
+                    // the delimiter is ASCII
+                    let rest = &rest[1..];
+                    let end = rest.find([delim, ']'])? + 2;
+                    // `end` may lie past the end of the pattern or inside a
+                    // multi-byte character: then there is no closing
+                    // delimiter and '[' is an ordinary character.
+                    expr.push_str(rest.get(..end)?);
+                    chars = rest[end..].chars();
                 }
             }
             ']' => {
